@@ -109,19 +109,11 @@ Theorem C10_assortativity_wei_bin_eq_bin : forall n A flag, binary n A ->
   oeq (assortativity_wei n A flag) (assortativity_bin n A flag).
 Proof. exact assortativity_wei_bin_eq_bin. Qed.
 
-(* documented "all connection weights are ignored": TRUE for non-negative weights ... *)
-Theorem C10_assortativity_bin_ignores_nonneg_weights : forall n W flag, nonnegm n W ->
+(* documented "all connection weights are ignored": every weight, negative ones included (edge list `!= 0`, after the
+   repair of the defect this check found: with `> 0` a negative weight changed the result) *)
+Theorem C10_assortativity_bin_ignores_weights : forall n W flag,
   oeq (assortativity_bin n W flag) (assortativity_bin n (binarize W) flag).
 Proof. exact assortativity_bin_ignores_weights. Qed.
-
-(* ... and FALSE in general: the edge list is `np.where(np.triu(CIJ, 1) > 0)` / `np.where(CIJ > 0)` while the degrees
-   count every nonzero entry, so a negative weight changes the result.  Witness (symmetric, empty diagonal):
-   W = [[0,-2,1,0],[-2,0,1,0],[1,1,0,1],[0,0,1,0]], flag 0: -4/5 on W, -5/7 on binarize(W).  Replayed on the
-   implementation by harness/c10.py (known finding assortativity_bin:ignores_weights_negative). *)
-Definition C10_assortativity_bin_ignores_weights_full_statement : Prop :=
-  forall n W flag, oeq (assortativity_bin n W flag) (assortativity_bin n (binarize W) flag).
-Theorem C10_assortativity_bin_ignores_weights_refuted : ~ C10_assortativity_bin_ignores_weights_full_statement.
-Proof. exact assortativity_bin_ignores_weights_refuted. Qed.
 
 (* ---- the other routines documented "weights are ignored / discarded": f(W) = f(binarize(W)) ----
    (degrees_und/degrees_dir: C10_degrees_ignore_weights above; findpaths raises on every call: known finding) *)
@@ -237,8 +229,7 @@ Print Assumptions C10_efficiency_wei_bin_eq_bin.
 Print Assumptions C10_efficiency_local_wei_bin_eq_bin.
 Print Assumptions C10_efficiency_local_cbrt_exact.
 Print Assumptions C10_assortativity_wei_bin_eq_bin.
-Print Assumptions C10_assortativity_bin_ignores_nonneg_weights.
-Print Assumptions C10_assortativity_bin_ignores_weights_refuted.
+Print Assumptions C10_assortativity_bin_ignores_weights.
 Print Assumptions C10_density_ignores_weights.
 Print Assumptions C10_jdegree_ignores_weights.
 Print Assumptions C10_edge_nei_overlap_ignores_weights.
